@@ -663,7 +663,9 @@ func c20CheckDescCase(c c20DescCase) engine.Result {
 					if n := len(es[0].Descriptors()); n != 0 || es[0].MaxBitRate() != 0 || es[0].IsTTMLSubtitling() {
 						res.Failf("NewPMT|program-level-descriptor|leaks-into-first-stream", "tag %#x body % x at program level: the first stream (no descriptors) reports %d descriptors, MaxBitRate %d", T, b.body, n, es[0].MaxBitRate())
 					}
-					_ = append(es[1].Descriptors(), psi.NewPmtDescriptor(0x0E, []byte{0xC0, 0x00, 0x01}), psi.NewPmtDescriptor(0x7F, []byte{0x20, 'x', 'y', 'z', 0x10}))
+					_ = append(es[1].Descriptors(), psi.NewPmtDescriptor(0x0E, []byte{0xC0, 0x00, 0x01}))
+					_ = append(es[1].Descriptors(), psi.NewPmtDescriptor(0x7F, []byte{0x20, 'x', 'y', 'z', 0x10}), psi.NewPmtDescriptor(0x0A, []byte("zzz\x03")))
+					_ = append(es[0].Descriptors(), psi.NewPmtDescriptor(0x0E, []byte{0xC0, 0x00, 0x02}))
 					if ds := es[2].Descriptors(); len(ds) != 1 {
 						res.Failf("NewPMT|descriptor-list-of-the-next-stream", "tag %#x: %d descriptors", T, len(ds))
 					} else {
